@@ -1,5 +1,5 @@
 \* The code as found: latch cleared by ucinewgame, Hash minimum 0.  Expected: deadlock (F4), crash (F6).
-CONSTANTS ResetOnGo = FALSE MaxCmds = 0 HashMinZero = TRUE
+CONSTANTS ResetOnGo = FALSE MaxCmds = 0 HashMinZero = TRUE InfiniteMayEnd = TRUE
 SPECIFICATION Spec
 INVARIANTS TypeOK MutexOwner OneBestmovePerGo GoSlotFree NoHang NoCrash
 PROPERTIES MainReturns GoAnswered
